@@ -827,4 +827,198 @@ theorem pre_none {f : File} {r : Req} (h1 : r.ifRange = []) (h2 : r.ifNoneMatch 
 
 theorem planContent_head (f : File) (r : Req) (b : Bool) : planContent f { r with head := b } = planContent f r := rfl
 
+/-! ### from header text to ranges: `bytes=a-b` in decimal -/
+
+/-- decimal digits of `n`, least significant first (`fuel` > number of digits) -/
+def digitsRev : Nat → Nat → Bytes
+  | 0, _ => []
+  | f + 1, n => (48 + n % 10) :: (if n / 10 = 0 then [] else digitsRev f (n / 10))
+
+/-- strconv.Itoa for naturals -/
+def digits (n : Nat) : Bytes := (digitsRev (n + 1) n).reverse
+
+def valLSF : Bytes → Nat
+  | [] => 0
+  | d :: r => (d - 48) + 10 * valLSF r
+
+theorem digitsVal_reverse (l : Bytes) : digitsVal l.reverse = valLSF l := by
+  unfold digitsVal
+  rw [List.foldl_reverse]
+  induction l with
+  | nil => rfl
+  | cons d r ih => simp only [List.foldr, valLSF]; rw [ih]; omega
+
+theorem valLSF_digitsRev : ∀ (f n : Nat), n < f → valLSF (digitsRev f n) = n
+  | 0, n, h => by omega
+  | f + 1, n, h => by
+    simp only [digitsRev]
+    by_cases h0 : n / 10 = 0
+    · simp only [h0, ↓reduceIte, valLSF]; omega
+    · simp only [h0, ↓reduceIte, valLSF]
+      rw [valLSF_digitsRev f (n / 10) (by omega)]
+      omega
+
+theorem digitsRev_digit : ∀ (f n : Nat), ∀ c ∈ digitsRev f n, 48 ≤ c ∧ c ≤ 57
+  | 0, _, c, h => by simp [digitsRev] at h
+  | f + 1, n, c, h => by
+    simp only [digitsRev] at h
+    by_cases h0 : n / 10 = 0
+    · simp [h0] at h; omega
+    · simp [h0] at h
+      rcases h with h | h
+      · omega
+      · exact digitsRev_digit f (n / 10) c h
+
+theorem digits_digit (n : Nat) : ∀ c ∈ digits n, 48 ≤ c ∧ c ≤ 57 := by
+  intro c h
+  exact digitsRev_digit (n + 1) n c (by simpa [digits] using h)
+
+theorem digits_ne_nil (n : Nat) : digits n ≠ [] := by
+  simp [digits, digitsRev]
+
+theorem parseInt_digits (n : Nat) (h : n < 2 ^ 63) : parseInt (digits n) = some (n : Int) := by
+  have hd := digits_digit n
+  have hne := digits_ne_nil n
+  have hv : digitsVal (digits n) = n := by
+    unfold digits
+    rw [digitsVal_reverse, valLSF_digitsRev _ _ (by omega)]
+  cases hs : digits n with
+  | nil => exact absurd hs hne
+  | cons c r =>
+    have hc := hd c (by rw [hs]; simp)
+    unfold parseInt
+    have h43 : (c == 43) = false := by simp; omega
+    have h45 : (c == 45) = false := by simp; omega
+    simp only [h43, h45, Bool.or_self, Bool.false_eq_true, ↓reduceIte]
+    have hall : (c :: r).all isDigit = true := by
+      rw [← hs]
+      simp only [List.all_eq_true]
+      intro x hx
+      have := hd x hx
+      simp [isDigit]; omega
+    rw [← hs] at hall ⊢
+    simp only [hall, hv]
+    have : (digits n).isEmpty = false := by rw [hs]; rfl
+    simp [this, h]
+
+
+theorem trimLeft_id {s : Bytes} (h : ∀ c, s.head? = some c → isWS c = false) : trimLeft s = s := by
+  cases s with
+  | nil => rfl
+  | cons c r => simp [trimLeft, h c rfl]
+
+theorem trim_id {s : Bytes} (h : ∀ c ∈ s, isWS c = false) : trim s = s := by
+  unfold trim
+  rw [trimLeft_id (fun c hc => h c (List.mem_of_mem_head? hc))]
+  rw [trimLeft_id (fun c hc => h c (List.mem_reverse.mp (List.mem_of_mem_head? hc)))]
+  simp
+
+theorem cut_append' {sep : Nat} : ∀ {a : Bytes} (b : Bytes), sep ∉ a → cut sep (a ++ sep :: b) = some (a, b)
+  | [], b, _ => by simp [cut]
+  | c :: r, b, h => by
+    have hc : c ≠ sep := by intro he; apply h; simp [he]
+    have hr : sep ∉ r := fun hm => h (List.mem_cons_of_mem _ hm)
+    simp [cut, hc, cut_append' b hr]
+
+theorem splitOn_not_mem' {sep : Nat} : ∀ {s : Bytes}, sep ∉ s → splitOn sep s = [s]
+  | [], _ => rfl
+  | c :: r, h => by
+    have hc : c ≠ sep := by intro he; apply h; simp [he]
+    have hr : sep ∉ r := fun hm => h (List.mem_cons_of_mem _ hm)
+    simp [splitOn, hc, splitOn_not_mem' hr]
+
+/-- the header value `bytes=a-b` -/
+def closedRange (a b : Nat) : Bytes := bytesPrefix ++ (digits a ++ 45 :: digits b)
+
+theorem not_ws_digits (n : Nat) : ∀ c ∈ digits n, isWS c = false := by
+  intro c hc
+  have := digits_digit n c hc
+  simp [isWS]; omega
+
+theorem lex_closed (a b : Nat) (ha : a < 2 ^ 63) (hb : b < 2 ^ 63) :
+    lex (digits a ++ 45 :: digits b) = .closed a b := by
+  have hws : ∀ c ∈ digits a ++ 45 :: digits b, isWS c = false := by
+    intro c hc
+    simp at hc
+    rcases hc with hc | hc | hc
+    · exact not_ws_digits a c hc
+    · subst hc; decide
+    · exact not_ws_digits b c hc
+  have h45 : 45 ∉ digits a := by
+    intro h; have := digits_digit a 45 h; omega
+  have hea : (digits a).isEmpty = false := by
+    cases h : digits a with
+    | nil => exact absurd h (digits_ne_nil a)
+    | cons _ _ => rfl
+  have heb : (digits b).isEmpty = false := by
+    cases h : digits b with
+    | nil => exact absurd h (digits_ne_nil b)
+    | cons _ _ => rfl
+  have hne : (digits a ++ 45 :: digits b).isEmpty = false := by
+    cases h : digits a <;> simp
+  unfold lex
+  simp only [trim_id hws, hne, cut_append' (digits b) h45, trim_id (not_ws_digits a), trim_id (not_ws_digits b),
+    hea, heb, parseInt_digits a ha, parseInt_digits b hb, Bool.false_eq_true, ↓reduceIte]
+
+theorem pieces_closedRange (a b : Nat) : pieces (closedRange a b) = [digits a ++ 45 :: digits b] := by
+  have h44 : 44 ∉ digits a ++ 45 :: digits b := by
+    intro h
+    simp at h
+    rcases h with h | h
+    · have := digits_digit a 44 h; omega
+    · have := digits_digit b 44 h; omega
+  unfold pieces closedRange
+  have : (bytesPrefix ++ (digits a ++ 45 :: digits b)).drop 6 = digits a ++ 45 :: digits b := by
+    simp [bytesPrefix]
+  rw [this, splitOn_not_mem' h44]
+
+theorem hasPrefix_self_append : ∀ (p s : Bytes), hasPrefix (p ++ s) p = true
+  | [], s => by cases s <;> simp [hasPrefix]
+  | c :: r, s => by simp [hasPrefix, hasPrefix_self_append r s]
+
+/-- a GET request that carries only `Range: bytes=a-b` -/
+def rangeOnly (a b : Nat) (ctypeKnown : Bool) : Req :=
+  { head := false, ctypeKnown := ctypeKnown, range := closedRange a b, ifRange := [], ifNoneMatch := [], ifMatch := [],
+    iusT := none, imsT := none, irT := none }
+
+theorem plan_closedRange (f : File) (a b : Nat) (k : Bool) (hab : a ≤ b) (hb : b < 2 ^ 63) (ha : a < f.content.length) :
+    planContent f (rangeOnly a b k) =
+      .send 206 (.range a (min (b : Int) (f.content.length - 1)) f.content.length) a
+        (min (b : Int) (f.content.length - 1) - a + 1) ∧
+    parseRangeWL (closedRange a b) = some [{ «from» := a, to := some b }] := by
+  have ha' : a < 2 ^ 63 := by omega
+  have hne : (closedRange a b).isEmpty = false := by simp [closedRange, bytesPrefix]
+  have hpre : hasPrefix (closedRange a b) bytesPrefix = true := hasPrefix_self_append _ _
+  have hpc := pieces_closedRange a b
+  unfold pieces at hpc
+  have hlex := lex_closed a b ha' hb
+  constructor
+  · have hp : checkPreconditions f (rangeOnly a b k) = .go (closedRange a b) :=
+      pre_none (r := rangeOnly a b k) rfl rfl rfl rfl rfl
+    have hpr : parseRange (closedRange a b) f.content.length =
+        .ok [{ start := a, length := min (b : Int) (f.content.length - 1) - a + 1 }] := by
+      unfold parseRange
+      simp only [hne, hpre, hpc, Bool.false_eq_true, ↓reduceIte, Bool.not_true]
+      rw [loopL_cons, hlex, lOf_closed (b : Int) (by omega)]
+      have h1 : ¬ ((a : Int) ≥ f.content.length) := by omega
+      have h2 : ¬ ((a : Int) > b) := by omega
+      simp only [h1, h2, ↓reduceIte, loopL, Option.map]
+      by_cases h3 : (b : Int) ≥ f.content.length
+      · have : min (b : Int) (f.content.length - 1) = f.content.length - 1 := by omega
+        simp [h3, this]
+      · have : min (b : Int) (f.content.length - 1) = b := by omega
+        simp [h3, this]
+    unfold planContent
+    simp only [hp, hpr, sumRangesSize, List.foldl]
+    have : ¬ (0 + (min (b : Int) (f.content.length - 1) - a + 1) > f.content.length) := by omega
+    simp only [this, ↓reduceIte]
+    have e : (a : Int) + (min (b : Int) (f.content.length - 1) - a + 1) - 1 = min (b : Int) (f.content.length - 1) := by
+      omega
+    rw [e]
+  · unfold parseRangeWL
+    simp only [hne, hpre, hpc, Bool.false_eq_true, ↓reduceIte, Bool.not_true]
+    rw [loopWL_cons, hlex, wlOf_closed (by omega)]
+    have h2 : ¬ ((a : Int) > b) := by omega
+    simp [h2, loopWL]
+
 end C30
